@@ -15,4 +15,7 @@ CHECKS = {
  "C14": {"technique": "reference-model monitor: real kernels vs independent 30-digit mpmath closed forms over generated inputs",
          "text": "Every loss/diff_loss/diff2Loss value returned by the real kernel classes on thousands of generated (y, yhat, spread, weights, layout) cases is compared with independently written closed forms evaluated at 30 digits; the reference derivatives are themselves cross-checked by numeric differentiation of the reference loss. Exploration: held on the cases executed, not a proof.",
          "note": TB + " Float64 error model: 1e-9 x sum of |terms| of each formula."},
+ "C19": {"technique": "reference-model monitor: real d/p/q/r helpers vs independent mpmath closed forms; same-seed call pairs",
+         "text": "Every provided d/p/q helper of the nine families is evaluated on generated parameters/arguments (plain and log form) and compared with independently written 30-digit closed forms in R's rate parameterisation (CDFs by incomplete gamma/beta/erf or direct summation); q is judged as the inverse of the reference CDF (midpoint rule for discrete families); every seeded generator is called twice with the same integer seed while the global stream is perturbed. Exploration over sampled inputs.",
+         "note": TB + " Empty stubs pnbinom/qnbinom/rnbinom are reported as not provided."},
 }
